@@ -133,7 +133,7 @@ func c15seq(c *run.Ctx) {
 			}
 		}},
 	}
-	rounds := c.N(16, 800)
+	rounds := c.N(16, 2000)
 	for round := 0; round < rounds; round++ {
 		r := caseRng(c, round)
 		w := c15World(nil)
